@@ -9,55 +9,55 @@ package currency
 // contract's own arithmetic (wide(c)*wide(b), MaxUint64) is exact.  mode bv (float helpers):
 // 64-bit vectors and SMT floating point; wide(x) extends to 128 bits.
 
-//@ func MultCoin returns (r, err)
+//@ func MultCoin(c, b) returns (r, err)
 //@   props C18
 //@   mode wrap
 //@   ensures wide(c)*wide(b) <= MaxUint64 ==> err == nil && r == c*b      #mult.exact
 //@   ensures wide(c)*wide(b) > MaxUint64 ==> err != nil                   #mult.overflow
 
-//@ func AddCoin returns (r, err)
+//@ func AddCoin(c, b) returns (r, err)
 //@   props C18
 //@   mode wrap
 //@   ensures wide(c)+wide(b) <= MaxUint64 ==> err == nil && r == c+b      #add.exact
 //@   ensures wide(c)+wide(b) > MaxUint64 ==> err != nil                   #add.overflow
 
-//@ func MinusCoin returns (r, err)
+//@ func MinusCoin(c, b) returns (r, err)
 //@   props C18
 //@   mode wrap
 //@   ensures b <= c ==> err == nil && r == c-b                            #minus.exact
 //@   ensures b > c ==> err != nil                                         #minus.underflow
 
-//@ func Int64ToCoin returns (r, err)
+//@ func Int64ToCoin(a) returns (r, err)
 //@   props C18
 //@   mode wrap
 //@   ensures a >= 0 ==> err == nil && r == a                              #conv.exact
 //@   ensures a < 0 ==> err != nil                                         #conv.negative
 
-//@ func (Coin).Int64 returns (r, err)
+//@ func (Coin).Int64(c) returns (r, err)
 //@   props C18
 //@   mode wrap
 //@   ensures c <= MaxInt64 ==> err == nil && r == c                       #conv.exact
 //@   ensures c > MaxInt64 ==> err != nil                                  #conv.overflow
 
-//@ func (Coin).Float64 returns (r, err)
+//@ func (Coin).Float64(c) returns (r, err)
 //@   props C18
 //@   mode bv
 //@   ensures err == nil && r == floatU64(c)                               #conv.ieee
 
 // AddInt64 / MinusInt64: conversion of a, then the unsigned operation.
-//@ func AddInt64 returns (r, err)
+//@ func AddInt64(c, a) returns (r, err)
 //@   props C18
 //@   mode wrap
 //@   ensures a >= 0 && wide(c)+wide(a) <= MaxUint64 ==> err == nil && r == c+a     #add.exact
 //@   ensures a < 0 || wide(c)+wide(a) > MaxUint64 ==> err != nil                    #add.error
 
-//@ func MinusInt64 returns (r, err)
+//@ func MinusInt64(c, a) returns (r, err)
 //@   props C18
 //@   mode wrap
 //@   ensures a >= 0 && wide(a) <= wide(c) ==> err == nil && r == c-a                #minus.exact
 //@   ensures a < 0 || wide(a) > wide(c) ==> err != nil                              #minus.error
 
-//@ func DistributeCoin returns (oCur, bal, err)
+//@ func DistributeCoin(c, a) returns (oCur, bal, err)
 //@   props C18
 //@   mode wrap
 //@   ensures a > 0 ==> err == nil && wide(oCur)*wide(a)+wide(bal) == wide(c) && wide(bal) < wide(a)    #divrem.exact
@@ -65,13 +65,13 @@ package currency
 
 // Float helpers: IEEE-754 binary64, round-to-nearest-even for the product, truncation toward
 // zero for the conversion. 18446744073709551616.0 is 2^64.
-//@ func Float64ToCoin returns (r, err)
+//@ func Float64ToCoin(a) returns (r, err)
 //@   props C18
 //@   mode bv
 //@   ensures !isNaN(a) && a >= 0.0 && a < 18446744073709551616.0 ==> err == nil && r == truncU64(a)   #f2c.exact
 //@   ensures isNaN(a) || a < 0.0 || a >= 18446744073709551616.0 ==> err != nil                          #f2c.error
 
-//@ func MultFloat64 returns (r, err)
+//@ func MultFloat64(c, a) returns (r, err)
 //@   props C18
 //@   mode bv
 //@   ensures !isNaN(a) && !isInf(a) && a >= 0.0 && floatU64(c)*a < 18446744073709551616.0
@@ -79,21 +79,21 @@ package currency
 //@   ensures isNaN(a) || isInf(a) || a < 0.0 || isNaN(floatU64(c)*a) || floatU64(c)*a >= 18446744073709551616.0
 //@      | ==> err != nil                                                                                #mulf.error
 
-//@ func Min returns (m)
+//@ func Min(a, b) returns (m)
 //@   props C18
 //@   mode wrap
 //@   ensures (a < b ==> m == a) && (a >= b ==> m == b)                    #min
 
 // ParseZCN: d = shortest round-trip decimal of c (library, assumed). amount*10^10 is a
 // non-negative integer in range  <=>  sign(d) != -1, exponent(d) >= -10, d*10^10 <= MaxInt64.
-//@ func ParseZCN returns (r, err)
+//@ func ParseZCN(c) returns (r, err)
 //@   props C18
 //@   mode bv
 //@   ensures !isNaN(c) && !isInf(c) ==> (err == nil <==> DecSign(DecOf(c)) != -1 && DecExp(DecOf(c)) >= -10 && !DecGT(DecShift(DecOf(c), 10), maxDecimal))   #parse.iff
 //@   ensures !isNaN(c) && !isInf(c) && err == nil ==> r == DecIntPart(DecShift(DecOf(c), 10))                                                                  #parse.value
 //@   ensures isNaN(c) || isInf(c) ==> err != nil                                                                                                               #parse.nonfinite
 
-//@ func (Coin).ToZCN returns (f, err)
+//@ func (Coin).ToZCN(c) returns (f, err)
 //@   props C18
 //@   mode bv
 //@   ensures c > MaxInt64 ==> err != nil                                  #tozcn.toolarge
